@@ -310,9 +310,10 @@ macro_rules! impl_radix_helper {
                 for (i, b) in buf.frac().iter_mut().enumerate() {
                     *b = self.mul10_assign();
 
-                    // Check if very close to zero, to avoid things like 0.19999999 and 0.20000001.
-                    // This takes place even if we have a precision.
-                    if self < 10 || self.wrapping_neg() < 10 {
+                    // Stop when the remaining fraction is exactly zero. (Stopping when it is
+                    // merely within 10 units of the word, as done before, drops significant
+                    // digits when the word is small, e.g. u8 or u16.)
+                    if self == 0 {
                         trim_to = Some(i + 1);
                         break;
                     }
